@@ -134,3 +134,63 @@ def gen_c01(seed, count):
 
 
 PYGEN['py_c01'] = gen_c01
+
+
+def gen_c04(seed, count):
+    """broker-side publish traffic: several identifiers in flight, retransmissions (DUP) before and after the PUBREL,
+    PUBRELs for unknown identifiers, resumed and fresh reconnects between PUBLISH and PUBREL, tiny transmit arenas"""
+    out = []
+    for idx in range(count):
+        r = random.Random((seed << 20) ^ (idx + 104729))
+        c = Case(rx=r.choice([48, 64, 128]), tx=r.choice([9, 12, 16, 64, 256]), ka=0)
+        c.connect(connack(0, 0, []))
+        pend = []
+        ids = [1, 2, 3, 7, 300, 65535]
+        for _ in range(r.randint(3, 14)):
+            x = r.random()
+            if x < 0.30:
+                pid = r.choice(ids)
+                props = r.choice([(), (), ((1, 1),), ((8, b're/ply'), (9, b'cd')), ((38, (b'k', b'v')), (38, (b'k', b'w'))),
+                                  ((11, 5),), ((2, 60), (3, b'text/plain'))])
+                c.feed(publish(2, pid, r.choice([b't', b'a/b', 'café'.encode()]), bytes(r.randrange(256) for _ in range(r.randint(0, 9))),
+                               props, dup=(pid in pend and r.random() < 0.7), retain=r.random() < 0.2))
+                if pid not in pend and len(pend) < 8:
+                    pend.append(pid)
+                c.poll()
+            elif x < 0.45 and pend:
+                pid = r.choice(pend)
+                c.feed(publish(2, pid, b't', b'again', dup=True))
+                c.poll()
+            elif x < 0.60 and pend:
+                pid = r.choice(pend)
+                pend.remove(pid)
+                c.feed(ack(6, pid, None))
+                c.poll()
+            elif x < 0.66:
+                c.feed(ack(6, r.choice(ids), r.choice([None, 0])))
+                c.poll()
+            elif x < 0.78:
+                c.feed(publish(1, r.choice(ids), b'q1', b'one', dup=r.random() < 0.2))
+                c.poll()
+            elif x < 0.84:
+                c.feed(publish(0, 0, b'q0', b'zero'))
+                c.poll()
+            elif x < 0.93:
+                c.drop()
+                sp = 1 if r.random() < 0.7 else 0
+                c.connect(connack(sp, 0, []))
+                if not sp:
+                    pend = []
+            elif x < 0.97:
+                c.publish(b'out', b'x', qos=r.choice([0, 1]))
+            else:
+                c.feed(publish(2, r.choice(ids), b't', b'') + publish(1, r.choice(ids), b'u', b'') + ack(6, r.choice(ids), None))
+                c.poll(3)
+        c.poll(2)
+        if r.random() < 0.3:
+            c.ev(*[(0, r.choice([1, 2, 3, 1000])) for _ in range(r.randint(5, 40))])
+        out.append(c.line())
+    return out
+
+
+PYGEN['py_c04'] = gen_c04
